@@ -86,10 +86,11 @@ inductive Form
   | moveIt               -- std::move_iterator<U*>
   | revIt                -- std::reverse_iterator<std::vector<U>::iterator>: random access, NOT contiguous
   | deqIt                -- std::deque<U>::iterator: random access, NOT contiguous
+  | inIt                 -- a single-pass input iterator whose copies share their position (like std::istream_iterator)
   deriving DecidableEq, Repr, Inhabited
 
 def Form.isRange : Form → Bool
-  | .ptr | .vecIt | .listIt | .moveIt | .revIt | .deqIt => false
+  | .ptr | .vecIt | .listIt | .moveIt | .revIt | .deqIt | .inIt => false
   | _ => true
 /-- `HAS_DATA_AND_SIZE<std::decay_t<Range>>`: a C array decays to a pointer, which has no `std::data` -/
 def Form.hasDataAndSize : Form → Bool
